@@ -1,7 +1,9 @@
 import Nsq.Model.RelayN2NTool
+import Nsq.Model.ToNsqRefuse
 /-
 Driver entry of the audit-round-7 models of C20 (sub-builder c20b): one prefix `a7` in DriverE8.
   `a7 n2n-hist …`   nsq_to_nsq whole histories / the tool behind handlerLoop (`Nsq.Model.Relay.N2N.consumeRun`)
+  `a7 refuse …`     to_nsq with a destination that refuses records above a size limit (`Nsq.Model.ToNsqRefuse.run`)
 Core Lean only (linked into drv_e8).
 -/
 namespace Nsq.Model.RelayAudit7
@@ -9,6 +11,7 @@ namespace Nsq.Model.RelayAudit7
 def driverLine (ws : List String) : String :=
   match ws with
   | "n2n-hist" :: _ => Nsq.Model.Relay.N2N.driverLineTool ws
+  | "refuse" :: _ => Nsq.Model.ToNsqRefuse.driverLine ws
   | _ => "bad-op"
 
 end Nsq.Model.RelayAudit7
